@@ -124,6 +124,9 @@ func randomRoot(r *rand.Rand, profile string, i int) string {
 		for j := 0; j < n; j++ {
 			toks = append(toks, pick(r, litPool[:5]))
 		}
+		if (profile == "mixed" || profile == "slash") && r.Intn(8) == 0 {
+			return "/" + strings.Join(toks, "/") + "/" // a root path written with a trailing slash
+		}
 		return "/" + strings.Join(toks, "/")
 	case x < 70:
 		return "/" + pick(r, litPool[:3]) + fmt.Sprintf("/{w%d}", i)
@@ -242,6 +245,14 @@ func randomTable(r *rand.Rand, profile string, nreq int) tableCase {
 			}
 			if r.Intn(14) == 0 {
 				rs.M = pick(r, []string{"TRACE", "PROPFIND", "REPORT"}) // methods outside the usual seven
+			}
+			if profile == "allow" && r.Intn(8) == 0 {
+				rs.M = "OPTIONS" // a table with its own OPTIONS route
+			}
+			if profile == "headers" && len(s.Routes) > 0 && r.Intn(2) == 0 {
+				// the same method and template as an earlier route: only Consumes / Produces tell them apart
+				prev := s.Routes[r.Intn(len(s.Routes))]
+				rs.M, rs.P = prev.M, prev.P
 			}
 			hp := 70
 			if profile == "headers" {
